@@ -1,5 +1,5 @@
 From Coq Require Import Extraction ExtrOcamlBasic.
-From SqfsV Require Import C03.Common C03.MetaModel C03.DirModel C03.TableModel.
+From SqfsV Require Import C03.Common C03.MetaModel C03.DirModel C03.TableModel C03.NumModel.
 Extraction "c03_model.ml" mw_init mw_append mw_flush mw_position mw_write_to_file mw_disk toy_compress
   dw_create dw_begin dw_add_entry dw_end dw_index_size dw_create_inode gcec
-  write_table dw_write_export_table super_init super_write pad_len.
+  write_table dw_write_export_table super_init super_write pad_len numbering.
